@@ -69,6 +69,9 @@ type c12Plan struct {
 	// that many client messages: the calls of the tasks then meet a failed transport.
 	ChaosEnd     int `json:"chaos_end,omitempty"`
 	ChaosEndKind int `json:"chaos_end_kind,omitempty"`
+	// ChaosTwin (chaos only): a second connection of the same process exchanges a few messages at the same time:
+	// whatever the connections share (package-level state) is shared by two reader goroutines.
+	ChaosTwin bool `json:"chaos_twin,omitempty"`
 }
 
 type c12ChaosOp struct {
@@ -114,6 +117,7 @@ func (c12) Gen(r *Rand, idx int, tier string) interface{} {
 		if r.Pct(30) {
 			p.ChaosEnd, p.ChaosEndKind = 1+r.Intn(4), r.Intn(2)
 		}
+		p.ChaosTwin = r.Pct(40)
 		return p
 	}
 	maxN := 4
@@ -200,6 +204,11 @@ func (c12) Shrink(plan interface{}) []interface{} {
 		if p.ChaosEnd > 0 {
 			q := *p
 			q.ChaosEnd = 0
+			out = append(out, &q)
+		}
+		if p.ChaosTwin {
+			q := *p
+			q.ChaosTwin = false
 			out = append(out, &q)
 		}
 		for i := range p.Chaos {
@@ -879,7 +888,23 @@ func c12RunChaos(p *c12Plan, schedSeed uint64, replay []simrt.Choice, lenient, k
 		body = append(body, peer.Done(0, 0, 0)...)
 		pr.SendPackets(peer.Packetise(body, peer.CutsBySize(len(body), p.BodySize), peer.BufResponse, m.Channel, true))
 	}
-	var setupErr, chLErr string
+	if p.ChaosTwin {
+		pr.NewSub = func(cn *simrt.Conn) *TDSPeer {
+			sp := SubPeer(s, cn)
+			sp.Async = true
+			sp.OnMsg = func(m *ClientMsg) {
+				if len(m.Body) == 2 && m.Body[0] == 0x71 {
+					sp.SendResponse(m.Channel, peer.Done(0, 0, 0), nil)
+					return
+				}
+				body := append(peer.Done(0x11, 0, 4242), peer.Done(0, 0, 0)...)
+				sp.SendResponse(m.Channel, body, []int{3, 11})
+			}
+			return sp
+		}
+	}
+	var setupErr, chLErr, twinErr string
+	twinGot := 0
 	connClosed := false
 	out := s.Run(func() {
 		conn, err := tds.NewConn(context.Background(), MkInfo(p.QueueSize, 5, false))
@@ -899,6 +924,40 @@ func c12RunChaos(p *c12Plan, schedSeed uint64, replay []simrt.Choice, lenient, k
 		}
 		chans := []*tds.Channel{ch0, chL}
 		var ts []*simrt.Task
+		if p.ChaosTwin {
+			ts = append(ts, simrt.Spawn("twin", func() {
+				c2, err := tds.NewConn(context.Background(), MkInfo(p.QueueSize, 5, false))
+				if err != nil {
+					twinErr = err.Error()
+					return
+				}
+				t0, err := c2.NewChannel()
+				if err != nil {
+					twinErr = err.Error()
+					return
+				}
+				ctx, cancel := simrt.WithTimeout(context.Background(), 30*time.Second)
+				defer cancel()
+				for k := 0; k < 3; k++ {
+					if err := t0.SendPackage(ctx, &tds.LanguagePackage{Cmd: "twin"}); err != nil {
+						twinErr = err.Error()
+						return
+					}
+					for n := 0; n < 5; n++ {
+						pkg, err := t0.NextPackage(ctx, true)
+						if err != nil {
+							twinErr = err.Error()
+							return
+						}
+						twinGot++
+						if d, ok := pkg.(*tds.DonePackage); ok && d.Status == tds.TDS_DONE_FINAL {
+							break
+						}
+					}
+				}
+				_ = c2.Close()
+			}))
+		}
 		for ti, ops := range p.Chaos {
 			ops := ops
 			ts = append(ts, simrt.Spawn(fmt.Sprintf("x%d", ti+1), func() {
@@ -962,6 +1021,9 @@ func c12RunChaos(p *c12Plan, schedSeed uint64, replay []simrt.Choice, lenient, k
 	}
 	if out.Budget {
 		return v, out
+	}
+	if p.ChaosTwin && (twinErr != "" || twinGot != 6) && len(out.Crashes) == 0 {
+		v.Violate("twin", "second connection disturbed", "a second connection exchanging three messages (two packages each) at the same time received %d packages %s", twinGot, twinErr)
 	}
 	if chLErr != "" {
 		v.Violate("newchannel-failed", "NewChannel failed although the server acknowledged the setup", "the first logical channel of the connection: NewChannel: %s", chLErr)
